@@ -3,7 +3,7 @@
    N / Z / positive stay Coq datatypes; no Extract Constant. *)
 From Coq Require Extraction.
 From Coq Require Import ExtrOcamlBasic.
-From CandidV Require Import Consts model.Base model.Hash model.Leb model.Principal model.Ty model.Gfp model.Sub model.Val model.Wire model.Coerce model.De model.Annot model.Text model.Check model.Analysis model.Escape model.Actions.
+From CandidV Require Import Consts model.Base model.Hash model.Leb model.Principal model.Ty model.Gfp model.Sub model.Memo model.Val model.Wire model.Coerce model.De model.Annot model.Text model.Check model.Analysis model.Escape model.Actions.
 Extraction Language OCaml.
 Set Extraction Optimize.
 Extraction "model.ml"
@@ -16,6 +16,7 @@ Extraction "model.ml"
   Leb.nat_decode Leb.int_decode Leb.decode_nat128 Leb.decode_int128 Leb.de_nat Leb.de_int Leb.de_int_of_nat
   Principal.to_text Principal.from_text Principal.try_from_slice Principal.crc32 Principal.b32_encode Principal.b32_decode
   Ty.ty_eqb Ty.trace Ty.tuple Sub.sub_dec Sub.sub_dec_fast Sub.eq_dec
+  Memo.query Memo.history Memo.plan_sub Memo.plan_eq Memo.sub_history Memo.eq_history
   Val.has_type Wire.enc_val Wire.dec_val Wire.dec_header Wire.table_name Coerce.coerce Coerce.spec_decode Coerce.spec_decode_untyped Coerce.spec_decode_untyped_raw Coerce.decode_fuel
   De.de_message De.de_message_untyped De.de
   Annot.annotate_top Annot.annotate_args Annot.vsize
